@@ -1628,6 +1628,7 @@ class Interp(object):
             is_ctor = isinstance(fv, tuple) and fv[0] == "class"
             if is_ctor:
                 obj = ("new", fv[1], self.site(node))
+                d["result"] = obj
                 p.types[obj] = "C:" + fv[1]
                 for q in self.inline(callee, obj, self_cls, args, kwargs, p, node):
                     if q.status == "ok":
